@@ -183,6 +183,307 @@ def tt_qtt_capped(d, q, K, cap_extra, redundant, seed):
     return PASS
 
 
+# ----------------------------------------------------------------------------- parameter / regime coverage (audit)
+
+EPS = np.finfo(float).eps
+FLOOR = 4.0 * np.sqrt(EPS)       # matrix_svd works on the Gram matrix: singular values below sqrt(eps) ||A|| are noise
+
+
+def _scaled(Y, mag):
+    """Y * 2^mag exactly, the exponent spread over the cores (remainder on core 0)."""
+    if not mag:
+        return Y
+    d = len(Y)
+    per = int(mag / d)
+    Z = [G * 2.0 ** per for G in Y]
+    Z[0] = Z[0] * 2.0 ** (mag - per * d)
+    return Z
+
+
+def _fro(X):
+    """Frobenius norm without under- / overflow of the squares."""
+    X = np.asarray(X, dtype=float)
+    m = float(np.abs(X).max()) if X.size else 0.0
+    if not np.isfinite(m) or m == 0.0:
+        return m
+    return m * float(np.linalg.norm(X / m))
+
+
+def _le_merge(B, d, q):
+    """Dense QTT tensor of shape [2]*(d*q) -> dense TT tensor [2^q]*d, QTT mode q*k+j = bit j (little-endian) of i_k."""
+    return np.reshape(B, [2 ** q] * d, order='F')
+
+
+def _chain_core(L):
+    """Own contraction of a list of cores (a_j, 2, a_j+1) to an array (a_0, 2, ..., 2, a_q)."""
+    H = np.asarray(L[0])
+    for Q in L[1:]:
+        H = np.einsum('...a,abc->...bc', H, np.asarray(Q))
+    return H
+
+
+def _kw(e, cap):
+    kw = {}
+    if e is not None:
+        kw['e'] = e
+    if cap is not None:
+        kw['r'] = cap
+    return kw
+
+
+def _core(r1, q, r2, kind, seed):
+    g = gen.rng('C17.core', r1, q, r2, kind, seed)
+    n = 2 ** q
+    if kind == 'int':
+        return g.integers(-3, 4, size=(r1, n, r2)).astype(float)
+    if kind == 'gauss':
+        return g.normal(size=(r1, n, r2))
+    if kind == 'exp2':                 # every (a, b) fibre a sum of 2 exponentials in i: exact inner QTT rank <= 2 r1 / 2 r2 ...
+        i = np.arange(n)
+        G = np.zeros((r1, n, r2))
+        for a in range(r1):
+            for b in range(r2):
+                for _ in range(2):
+                    G[a, :, b] += g.normal() * np.exp(g.uniform(-3.0, 1.0) * i / n) * (g.choice([-1.0, 1.0]) ** i)
+        return G
+    if kind == 'zero':
+        return np.zeros((r1, n, r2))
+    raise ValueError(kind)
+
+
+@clause('C17.core.direct', funcs=('core.core_tt_to_qtt', 'core.core_qtt_to_tt', 'svd.matrix_svd'))
+def core_direct(r1, q, r2, kind, seed, erel, cap, mag):
+    """core_tt_to_qtt called directly on one core (r1, 2^q, r2) (defaults e = 0, r = 1e12 when erel / cap are None; e is
+    an ABSOLUTE accuracy, given here as erel * ||G||_F): q cores (a_j, 2, a_j+1) with a_0 = r1, a_q = r2, inner bonds
+    <= cap; if the cap does not bind, the chain contracted with little-endian bits reproduces G within q*e (+ the
+    sqrt(eps) floor of the Gram-matrix SVD); core_qtt_to_tt of the list is that chain (exactly for integer cores);
+    the argument is left unchanged."""
+    n = 2 ** q
+    G = _core(r1, q, r2, kind, seed) * 2.0 ** mag
+    nrm = _fro(G)
+    e = None if erel is None else erel * nrm
+    snap = gen.snapshot(G)
+    L = teneva.core_tt_to_qtt(G, **_kw(e, cap))
+    if gen.snapshot(G) != snap:
+        return FAIL('core_tt_to_qtt changed its argument')
+    if not isinstance(L, list) or len(L) != q:
+        return FAIL(f'{type(L).__name__} of length {len(L) if hasattr(L, "__len__") else "?"}, expected a list of {q} cores')
+    for j, Q in enumerate(L):
+        if not isinstance(Q, np.ndarray) or Q.ndim != 3 or Q.shape[1] != 2 or min(Q.shape) < 1 or not np.all(np.isfinite(Q)):
+            return FAIL(f'QTT core {j}: shape {getattr(Q, "shape", None)} / non-finite')
+        if j and Q.shape[0] != L[j - 1].shape[2]:
+            return FAIL(f'bond {j}: {L[j - 1].shape[2]} != {Q.shape[0]}')
+    if L[0].shape[0] != r1 or L[-1].shape[2] != r2:
+        return FAIL(f'outer ranks ({L[0].shape[0]}, {L[-1].shape[2]}) != ({r1}, {r2})')
+    capi = 10 ** 12 if cap is None else max(1, int(cap))
+    inner = [Q.shape[2] for Q in L[:-1]]
+    if any(b > capi for b in inner):
+        return FAIL(f'inner bonds {inner} exceed the cap {cap}')
+    C = _chain_core(L)                                                                # (r1, 2, ..., 2, r2)
+    H = np.stack([np.stack([np.reshape(C[a, ..., b], n, order='F') for b in range(r2)], axis=-1) for a in range(r1)], axis=0)
+    # exact unfolding ranks decide whether the cap binds: bond j separates (r1, bits < j) from (bits >= j, r2); j = q is
+    # the unfolding towards the next mode - the routine caps that factorisation as well (the bond keeps its size r2)
+    binding = False
+    if cap is not None and nrm > 0:
+        T = np.stack([np.stack([np.reshape(G[a, :, b], [2] * q, order='F') for b in range(r2)], axis=-1) for a in range(r1)], axis=0)
+        for j in range(1, q + 1):
+            M = T.reshape(r1 * 2 ** j, -1)
+            sv = np.linalg.svd(M, compute_uv=False)
+            if int(np.sum(sv > 1e-9 * sv[0])) > capi:
+                binding = True
+    W = teneva.core_qtt_to_tt(L)
+    if not isinstance(W, np.ndarray) or W.shape != (r1, n, r2):
+        return FAIL(f'core_qtt_to_tt: shape {getattr(W, "shape", None)} != {(r1, n, r2)}')
+    if not np.abs(W - H).max() <= 64 * EPS * q * max(1e-300, float(np.abs(_chain_core([np.abs(Q) for Q in L])).max())):
+        return FAIL('core_qtt_to_tt differs from the own little-endian contraction of the list')
+    if binding:
+        return TRIVIAL('rank cap binds: structure only')
+    err = _fro(H - G)
+    tol = q * (0.0 if e is None else e) + FLOOR * q * nrm
+    if not err <= tol:
+        return FAIL(f'chain of the QTT cores differs from the core: ||.|| = {err:.3e} > q e + floor = {tol:.3e} (||G|| = {nrm:.3e}, '
+                    f'inner bonds {inner})')
+    return PASS if nrm > 0 else TRIVIAL('zero core')
+
+
+@clause('C17.qtt_to_tt.direct', funcs=('act_one.qtt_to_tt', 'core.core_qtt_to_tt'))
+def qtt_to_tt_direct(d, q, r, kind, seed, mag):
+    """qtt_to_tt on an arbitrary QTT tensor (random ranks, not produced by tt_to_qtt): well-formed TT of shape [2^q]^d
+    whose bonds are the QTT bonds between the modes and whose entry at i is the QTT entry at the little-endian bits of
+    i - exactly for integer cores; q = 1 returns equal cores; the argument is left unchanged."""
+    g = gen.rng('C17.qtt', d, q, r, kind, seed)
+    rr = [1] + [int(g.integers(1, r + 1)) for _ in range(d * q - 1)] + [1]
+    Z = _scaled(gen.tt([2] * (d * q), rr, seed, kind), mag)
+    snap = gen.snapshot(Z)
+    W = teneva.qtt_to_tt(Z, q)
+    if gen.snapshot(Z) != snap:
+        return FAIL('qtt_to_tt changed its argument')
+    msg = gen.wf(W, [2 ** q] * d)
+    if msg:
+        return FAIL('not well-formed: ' + msg)
+    for k in range(d - 1):
+        if W[k].shape[2] != rr[(k + 1) * q]:
+            return FAIL(f'TT bond {k}: {W[k].shape[2]} != QTT bond {rr[(k + 1) * q]} between the modes')
+    want = _le_merge(gen.dense(Z), d, q)
+    got = gen.dense(W)
+    if kind == 'int':
+        if not np.array_equal(got, want):
+            return FAIL(f'entries differ (exact integer tensor), first at {np.argwhere(got != want)[0].tolist()}')
+    elif not gen.close(got, want, _le_merge(gen.absdense(Z), d, q), c=64.0 * d * q):
+        return FAIL(f'entries differ by up to {np.abs(got - want).max():.3e}')
+    if q == 1 and not all(np.array_equal(A, B) for A, B in zip(W, Z)):
+        return FAIL('q = 1: cores changed')
+    return PASS
+
+
+def _bits_vec(I, q):
+    """(m, d) integer array -> (m, d*q) little-endian bits (vectorised own expansion)."""
+    I = np.asarray(I, dtype=np.int64)
+    return ((I[:, :, None] >> np.arange(q, dtype=np.int64)[None, None, :]) & 1).reshape(I.shape[0], -1)
+
+
+@clause('C17.tt_qtt.large_q', funcs=('act_one.tt_to_qtt', 'act_one.qtt_to_tt', 'core.core_tt_to_qtt', 'core.core_qtt_to_tt'))
+def tt_qtt_large_q(d, q, K, kind, seed, cap, defaults):
+    """Mode sizes 2^q up to 4096 (d = 1, 2): TT cores that are sums of K separable exponentials (exact inner QTT rank <= K)
+    or Gaussian cores (cap None); tt_to_qtt with the cap (>= K) or with its defaults (e = 1e-12, r = 100): well-formed,
+    inner bonds <= cap, bonds between modes kept, the QTT entry at the bits of i equals the TT entry at i for EVERY i,
+    qtt_to_tt returns the tensor."""
+    n = 2 ** q
+    g = gen.rng('C17.large_q', d, q, K, kind, seed)
+    i = np.arange(n)
+    if kind == 'exp':
+        V = [np.exp(g.uniform(-3.0, 1.0, size=K)[None, :] * i[:, None] / n) * (g.choice([-1.0, 1.0], size=K)[None, :] ** i[:, None])
+             for _ in range(d)]
+        Y = [V[0].sum(axis=1).reshape(1, n, 1)] if d == 1 else [V[0].reshape(1, n, K), V[1].T.reshape(K, n, 1)]
+    else:
+        Y = gen.tt([n] * d, K, seed, 'gauss')
+    A = gen.dense(Y)
+    Z = teneva.tt_to_qtt(Y) if defaults else teneva.tt_to_qtt(Y, 1e-10 * float(min(np.linalg.norm(G) for G in Y)), cap)
+    msg = gen.wf(Z, [2] * (d * q))
+    if msg:
+        return FAIL('qtt not well-formed: ' + msg)
+    capi = 100 if defaults else int(cap)
+    for k in range(d * q - 1):
+        bond = Z[k].shape[2]
+        if (k + 1) % q == 0:
+            if bond != Y[(k + 1) // q - 1].shape[2]:
+                return FAIL(f'bond between modes {k}: {bond} != stored TT rank {Y[(k + 1) // q - 1].shape[2]}')
+        elif bond > capi:
+            return FAIL(f'inner bond {k}: {bond} > cap {capi}')
+    B = _le_merge(gen.dense(Z), d, q)
+    nrm = float(np.linalg.norm(A))
+    if kind == 'exp' or capi >= n:
+        err = float(np.linalg.norm(B - A))
+        if not err <= 1e-6 * nrm:
+            return FAIL(f'QTT[bits(i)] != TT[i]: rel. err {err / nrm:.3e}, ranks {[G.shape[2] for G in Z]}')
+    # spot check through the index map (independent of the reshape above)
+    I = np.stack([g.integers(0, n, size=64) for _ in range(d)], axis=1)
+    Iq = _bits_vec(I, q)
+    vq = gen.dense(Z)[tuple(Iq.T)]
+    if not np.array_equal(vq, B[tuple(I.T)]):
+        return FAIL('internal: bit expansion and Fortran merge disagree')
+    W = teneva.qtt_to_tt(Z, q)
+    msg = gen.wf(W, [n] * d)
+    if msg:
+        return FAIL('back-converted tt not well-formed: ' + msg)
+    if not np.linalg.norm(gen.dense(W) - B) <= 1e-10 * max(1e-300, float(np.linalg.norm(B))) * q:
+        return FAIL('qtt_to_tt changes the denoted tensor')
+    return PASS
+
+
+@clause('C17.tt_qtt.scaled', funcs=('act_one.tt_to_qtt', 'act_one.qtt_to_tt', 'core.core_tt_to_qtt', 'svd.matrix_svd'))
+def tt_qtt_scaled(d, q, r, kind, seed, mag, erel, cap):
+    """The tensor times 2^mag (d = 1..3): the accuracy e is ABSOLUTE per core and is passed as erel * min_k ||G_k||_F, so
+    the statement is scale-free: QTT[bits(i)] = TT[i] within sum_k (q e + floor ||G_k||) prod_{j != k} ||G_j||_F, the
+    bonds between modes are kept, inner bonds <= cap, the round trip returns the tensor.  erel = None: defaults of
+    tt_to_qtt (e = 1e-12, r = 100; only for scales where 1e-12 is far below the cores)."""
+    n = 2 ** q
+    Y = _scaled(gen.tt([n] * d, r, seed, kind), mag)
+    A = gen.dense(Y)
+    nk = [_fro(G) for G in Y]
+    if min(nk) == 0:
+        return SKIP('a zero core')
+    snap = gen.snapshot(Y)
+    if erel is None:
+        e, capi = 1e-12, 100
+        Z = teneva.tt_to_qtt(Y)
+    else:
+        e, capi = erel * min(nk), max(1, int(cap))
+        Z = teneva.tt_to_qtt(Y, e, cap)
+    if gen.snapshot(Y) != snap:
+        return FAIL('tt_to_qtt changed its argument')
+    msg = gen.wf(Z, [2] * (d * q))
+    if msg:
+        return FAIL('qtt not well-formed: ' + msg)
+    if not gen.finite(Z):
+        return FAIL('non-finite QTT cores')
+    for k in range(d * q - 1):
+        bond = Z[k].shape[2]
+        if (k + 1) % q == 0:
+            if bond != Y[(k + 1) // q - 1].shape[2]:
+                return FAIL(f'bond between modes {k}: {bond} != {Y[(k + 1) // q - 1].shape[2]}')
+        elif bond > capi:
+            return FAIL(f'inner bond {k}: {bond} > cap {capi}')
+    B = _le_merge(gen.dense(Z), d, q)
+    W = teneva.qtt_to_tt(Z, q)
+    msg = gen.wf(W, [n] * d)
+    if msg:
+        return FAIL('back-converted tt not well-formed: ' + msg)
+    if not _fro(gen.dense(W) - B) <= 1e-12 * q * _fro(B):
+        return FAIL('qtt_to_tt changes the denoted tensor')
+    if capi < 2 ** (q // 2) * r:
+        return TRIVIAL('rank cap may bind: structure only')
+    lg = [np.log2(x) for x in nk]
+    tol = sum((q * e + FLOOR * q * nk[k]) * 2.0 ** (sum(lg) - lg[k]) for k in range(d))
+    err = _fro(B - A)
+    if not err <= tol:
+        return FAIL(f'QTT[bits(i)] != TT[i]: ||.|| = {err:.3e} > {tol:.3e} (||A|| = {_fro(A):.3e}, e = {e:.3e})')
+    return PASS
+
+
+@clause('C17.ind.forms', funcs=('grid.ind_tt_to_qtt', 'grid.ind_qtt_to_tt'))
+def ind_forms(d, q, seed, form):
+    """Input forms of the index maps: list of lists, 1-D list, tuple rows, int32 / int16 / uint8 / uint64 arrays, n and q as
+    NumPy integers: the same little-endian expansion / its inverse, integer result that holds values up to 2^q - 1."""
+    n = 2 ** q
+    g = gen.rng('C17.forms', d, q, seed)
+    I = np.stack([np.concatenate([[0, n - 1, n // 2], g.integers(0, n, size=9)]) for _ in range(d)], axis=1).astype(np.int64)
+    want = _bits_vec(I, q)
+    nn, qq = n, q
+    if form == 'lists':
+        a, b = I.tolist(), want.tolist()
+    elif form == 'tuples':
+        a, b = [tuple(r_) for r_ in I.tolist()], [tuple(r_) for r_ in want.tolist()]
+    elif form == 'single_list':
+        a, b = I[1].tolist(), want[1].tolist()
+    elif form == 'np_scalars':
+        a, b, nn, qq = I, want, np.int64(n), np.int64(q)
+    elif form == 'np_int32_scalars':
+        a, b, nn, qq = I, want, np.int32(n), np.int32(q)
+    elif form in ('int32', 'int16', 'uint8', 'uint64', 'int8'):
+        dt = np.dtype(form)
+        if n - 1 > np.iinfo(dt).max:
+            return SKIP('index does not fit the dtype')
+        a, b = I.astype(dt), want.astype(dt)
+    else:
+        raise ValueError(form)
+    got = teneva.ind_tt_to_qtt(a, nn)
+    back = teneva.ind_qtt_to_tt(b, qq)
+    if form == 'single_list':
+        if np.shape(got) != (d * q,) or not np.array_equal(got, want[1]):
+            return FAIL(f'1-D list: expansion {np.asarray(got).tolist()} != {want[1].tolist()}')
+        if np.shape(back) != (d,) or not np.array_equal(back, I[1]):
+            return FAIL(f'1-D list: inverse {np.asarray(back).tolist()} != {I[1].tolist()}')
+        return PASS
+    if np.shape(got) != want.shape or not np.array_equal(got, want):
+        return FAIL(f'{form}: bit expansion differs')
+    if np.shape(back) != I.shape or not np.array_equal(np.asarray(back).astype(object), I.astype(object)):
+        return FAIL(f'{form}: inverse differs: {np.asarray(back)[:3].tolist()} vs {I[:3].tolist()}')
+    if np.asarray(back).dtype.kind not in 'iu' or np.asarray(got).dtype.kind not in 'iu':
+        return FAIL(f'{form}: result dtypes {np.asarray(got).dtype}, {np.asarray(back).dtype}')
+    return PASS
+
+
 def cases(tier, seed):
     big = tier == 'thorough'
     lim = 12 if big else 10
@@ -203,6 +504,57 @@ def cases(tier, seed):
                     for redundant in ((False, True) if d == 2 else (False,)):
                         for s_ in range(2 if big else 1):
                             yield 'C17.tt_qtt.capped_exact_rank', dict(d=d, q=q, K=K, cap_extra=cap_extra, redundant=redundant, seed=s_)
+    # ---- parameter / regime coverage (audit) ----
+    for n in (64, 100, 255, 256, 257, 511, 512, 513, 1000, 1024, 1025, 4095, 4096, 2 ** 16, 2 ** 16 + 1, 2 ** 18, 2 ** 18 - 1, 3 * 2 ** 10):
+        yield 'C17.ind.raise', dict(n=n)
+    for d, q in ((1, 20), (2, 31), (1, 32), (2, 33), (1, 40), (3, 48), (1, 53), (2, 54), (1, 62), (2, 62),     # q*d bits, 2^q beyond int32 / 2^53
+                 (63, 1), (64, 2), (70, 3), (200, 1), (200, 5), (1000, 2)) + (((5, 62), (500, 8), (3000, 1)) if big else ()):
+        yield 'C17.ind.large_modes', dict(d=d, q=q, seed=0)
+    for d, q in ((1, 1), (1, 3), (2, 1), (2, 4), (3, 2), (2, 7), (1, 8), (2, 9), (1, 15), (2, 16), (70, 2)):
+        for form in ('lists', 'tuples', 'single_list', 'np_scalars', 'np_int32_scalars', 'int32', 'int16', 'int8', 'uint8', 'uint64'):
+            yield 'C17.ind.forms', dict(d=d, q=q, seed=d + q, form=form)
+    # core functions called directly: defaults, e (absolute, given relative to ||G||), caps (int / float / binding), scale
+    for (r1, r2) in ((1, 1), (1, 3), (3, 1), (2, 2), (4, 3)) + (((5, 5), (1, 8)) if big else ()):
+        for q in ((1, 2, 3, 4, 6, 9) if big else (1, 2, 3, 5)):
+            for kind in ('gauss', 'int', 'exp2', 'zero'):
+                for (erel, cap) in ((None, None), (0.0, 1e12), (1e-12, None), (1e-3, None), (0.1, 10 ** 12), (None, 2), (1e-6, 4.0), (None, 1),
+                                    (1e-10, 2 * max(r1, r2)), (None, 100)):
+                    if kind == 'zero' and (erel, cap) not in ((None, None), (1e-3, None)):
+                        continue
+                    if not big and kind != 'gauss' and (q + r1 + r2 + int(cap or 0)) % 2:
+                        continue
+                    for mag in ((0, -300, -40, 40, 300) if (big or (erel, cap) in ((None, None), (1e-3, None))) else (0,)):
+                        yield 'C17.core.direct', dict(r1=r1, q=q, r2=r2, kind=kind, seed=q + r1, erel=erel, cap=cap, mag=mag)
+    for d in (1, 2, 3, 4):
+        for q in (1, 2, 3, 4, 6):
+            if d * q > (14 if big else 12):
+                continue
+            for r in (1, 2, 4):
+                for kind in ('int', 'gauss'):
+                    for mag in ((0, -600, 600) if kind == 'gauss' else (0, 40)):
+                        for sd in range(3 if big else 1):
+                            yield 'C17.qtt_to_tt.direct', dict(d=d, q=q, r=r, kind=kind, seed=sd, mag=mag)
+    for d in (1, 2):
+        for q in ((7, 9, 10, 11, 12) if big else (9, 10)):
+            if d * q > (22 if big else 18):
+                continue
+            for K in (1, 2, 3):
+                for cap in (K, K + 1, 100.0):
+                    yield 'C17.tt_qtt.large_q', dict(d=d, q=q, K=K, kind='exp', seed=q + K, cap=cap, defaults=False)
+                yield 'C17.tt_qtt.large_q', dict(d=d, q=q, K=K, kind='exp', seed=q + K, cap=0, defaults=True)
+                yield 'C17.tt_qtt.large_q', dict(d=d, q=q, K=K, kind='gauss', seed=q + K, cap=2 ** q, defaults=False)
+                yield 'C17.tt_qtt.large_q', dict(d=d, q=q, K=K, kind='gauss', seed=q + K, cap=3, defaults=False)     # structure only
+    for d in (1, 2, 3):
+        for q in (1, 2, 3) + ((4,) if d < 3 else ()):
+            for r in (1, 2, 3, 5):
+                for kind in ('gauss', 'int'):
+                    for (erel, cap) in ((1e-12, 10 ** 12), (1e-3, 10 ** 12), (0.05, 1e12), (1e-12, 2), (None, None), (0.0, 64)):
+                        for mag in ((0, -600, -54, 54, 600) if big else (0, -600, 54) if erel in (1e-3, 1e-12) and cap == 10 ** 12 else (0,)):
+                            if erel is None and mag < 0:
+                                continue                          # default e = 1e-12 is absolute: keep clear of it
+                            if d == 1:
+                                mag = mag // 2                    # per-core scale within 2^+-300 (see DOUBTFUL below)
+                            yield 'C17.tt_qtt.scaled', dict(d=d, q=q, r=r, kind=kind, seed=d + q + r, mag=mag, erel=erel, cap=cap)
     g = gen.rng('C17', seed)
     for d in (2, 3):
         for q in (1, 2, 3):
@@ -212,3 +564,7 @@ def cases(tier, seed):
                         for rep in range(3 if big else 1):
                             yield 'C17.tt_qtt.roundtrip', dict(d=d, q=q, r=r, seed=int(g.integers(1 << 30)),
                                                                kind=kind, e=e, cap=cap)
+    # DOUBTFUL (disabled): a core whose entries are below about 1e-154 (or above 1e154) is lost, because matrix_svd forms
+    # the Gram matrix A A^T whose entries under- / overflow: tt_to_qtt of a vector of magnitude 2^-600 returns zero cores.
+    # The entries are ordinary doubles, but squares of the data leave the range - recorded, not counted.
+    # yield 'C17.tt_qtt.scaled', dict(d=1, q=2, r=1, kind='gauss', seed=4, mag=-600, erel=1e-12, cap=10 ** 12)
